@@ -82,3 +82,26 @@ def migration_script(r, idx, ops, fate_vec=None):
 def migration_random(r, idx):
     ops = [r.choice(["port", "ip", "back", "spoof", "spoof_silent", "spoof_old", "s2c_spoof", "wait", "key"]) for _ in range(r.choice([1, 2, 3, 6]))]
     return migration_script(r, idx, ops)
+
+
+def migration_ackonly(r, idx):
+    """A client that has nothing to say of its own: it receives a long transfer and only acknowledges.
+    Its address changes in the middle (a NAT rebinding; the old address still receives), and from then
+    on its acknowledgements - ordinary, non-probing packets - come from the new address: the server
+    has to follow them there, validate the path and finish the transfer."""
+    cfg = base_cfg(r, server={"idle_ms": 0, "cc": r.choice(["fixed:12000", "fixed:6000"])}, client={"idle_ms": 0})
+    cfg["migration"] = True
+    cfg["keep_old_addrs"] = True
+    cfg["latency_us"] = r.choice([5000, 10000, 20000])
+    steps = [{"do": "connect", "n": 1},
+             {"do": "run_until", "what": "connected", "max_us": 10000000},
+             {"do": "run", "us": 200000},
+             {"do": "app", "n": 0, "c": 0, "read_max": 1 << 20, "ordered": True,
+              "streams": [{"dir": r.choice([0, 1]), "size": r.choice([1000000, 2000000]), "chunk": 1 << 20, "finish": True}]}]
+    # the transfer takes at least 0.8 s (window-limited): every address change falls into it
+    for k in range(r.choice([1, 1, 2])):
+        steps.append({"do": "run", "us": r.choice([30000, 80000, 150000])})
+        steps.append({"do": "migrate", "n": 1, "addr": [r.choice([2, 30 + k]), 1, 6100 + k]})
+    steps.append({"do": "run_until", "what": "apps", "max_us": 40000000})
+    steps.append({"do": "run", "us": 3000000})
+    return {"cfg": cfg, "steps": steps, "tag": {"family": "migration-ackonly", "idx": idx}}
